@@ -32,6 +32,7 @@ fn main() {
 		verif_dir: PathBuf::from(std::env::var("JSV_VERIF_DIR").unwrap_or_else(|_| "/verif".into())),
 		repo_dir: PathBuf::from(std::env::var("JSV_REPO_DIR").unwrap_or_else(|_| "/repo".into())),
 		scale: 1.0,
+		san_div: 2000.0,
 	};
 	if let Ok(t) = std::env::var("VERIF_TIER") {
 		if t == "thorough" {
@@ -55,6 +56,10 @@ fn main() {
 				replay = args.get(i).map(PathBuf::from);
 			}
 			"--san" => cfg.san = true,
+			"--san-div" => {
+				i += 1;
+				cfg.san_div = args.get(i).and_then(|s| s.parse().ok()).unwrap_or(2000.0);
+			}
 			"--threads" => {
 				i += 1;
 				cfg.threads = args.get(i).and_then(|s| s.parse().ok()).unwrap_or(cfg.threads);
